@@ -1,29 +1,102 @@
 import Fundraising.Model.Match
+import Fundraising.Proofs.MatchList
 /-
   C14 — the result of each place where the Go code ranges over a map does not depend on
   the iteration order the runtime picks.  STATEMENTS ARE FIXED (cited by Props/C14.lean).
 -/
 namespace Fundraising
 
+/-! ### helper: a strictly sorted list is determined by its members -/
+
+theorem strictSorted_ext {α : Type} (r : α → α → Prop) (asym : ∀ a b, r a b → r b a → False) :
+    ∀ (l₁ l₂ : List α), l₁.Pairwise r → l₂.Pairwise r → (∀ x, x ∈ l₁ ↔ x ∈ l₂) → l₁ = l₂
+  | [], [], _, _, _ => rfl
+  | [], b :: l₂, _, _, h => by
+    have := (h b).2 List.mem_cons_self
+    cases this
+  | a :: l₁, [], _, _, h => by
+    have := (h a).1 List.mem_cons_self
+    cases this
+  | a :: l₁, b :: l₂, h₁, h₂, h => by
+    have h₁' := List.pairwise_cons.1 h₁
+    have h₂' := List.pairwise_cons.1 h₂
+    have hab : a = b := by
+      rcases List.mem_cons.1 ((h a).1 List.mem_cons_self) with e | ha
+      · exact e
+      · rcases List.mem_cons.1 ((h b).2 List.mem_cons_self) with e | hb
+        · exact e.symm
+        · exact (asym a b (h₁'.1 b hb) (h₂'.1 a ha)).elim
+    subst hab
+    have irr : ∀ x, ¬ r x x := fun x hx => asym x x hx hx
+    have ht : l₁ = l₂ := by
+      refine strictSorted_ext r asym l₁ l₂ h₁'.2 h₂'.2 (fun x => ⟨fun hx => ?_, fun hx => ?_⟩)
+      · rcases List.mem_cons.1 ((h x).1 (List.mem_cons_of_mem _ hx)) with e | hx'
+        · subst e; exact (irr _ (h₁'.1 _ hx)).elim
+        · exact hx'
+      · rcases List.mem_cons.1 ((h x).2 (List.mem_cons_of_mem _ hx)) with e | hx'
+        · subst e; exact (irr _ (h₂'.1 _ hx)).elim
+        · exact hx'
+    rw [ht]
+
+theorem natLt_asym (a b : Acc) : a < b → b < a → False := fun h1 h2 =>
+  Nat.lt_irrefl a (Nat.lt_trans h1 h2)
+
+theorem intGt_asym (a b : Dec) : b < a → a < b → False := fun h1 h2 =>
+  Int.lt_irrefl b (Int.lt_trans h1 h2)
+
 /-- "collect the keys of a map into a slice, then sort it": the keys arrive in the order
     `l` chosen by the runtime; the code sorts them (model: insertion into a sorted,
     duplicate-free list — `sort.Strings` on distinct keys) -/
 def sortKeys (l : List Acc) : List Acc := l.foldl (fun acc u => insertAcc u acc) []
 
+theorem sortKeys_foldl (l : List Acc) : ∀ (acc : List Acc), acc.Pairwise (· < ·) →
+    (l.foldl (fun acc u => insertAcc u acc) acc).Pairwise (· < ·) ∧
+    ∀ v, v ∈ l.foldl (fun acc u => insertAcc u acc) acc ↔ v ∈ acc ∨ v ∈ l := by
+  induction l with
+  | nil => intro acc h; exact ⟨h, fun v => by simp⟩
+  | cons u us ih =>
+    intro acc h
+    simp only [List.foldl_cons]
+    have := ih (insertAcc u acc) (insertAcc_sorted u acc h)
+    refine ⟨this.1, fun v => ?_⟩
+    rw [this.2 v, mem_insertAcc, List.mem_cons]
+    constructor
+    · rintro ((h | h) | h)
+      · exact Or.inr (Or.inl h)
+      · exact Or.inl h
+      · exact Or.inr (Or.inr h)
+    · rintro (h | h | h)
+      · exact Or.inl (Or.inr h)
+      · exact Or.inl (Or.inl h)
+      · exact Or.inr h
+
+theorem sortKeys_sorted (l : List Acc) : (sortKeys l).Pairwise (· < ·) :=
+  (sortKeys_foldl l [] List.Pairwise.nil).1
+
+theorem mem_sortKeys (l : List Acc) (u : Acc) : u ∈ sortKeys l ↔ u ∈ l := by
+  have := (sortKeys_foldl l [] List.Pairwise.nil).2 u
+  unfold sortKeys; rw [this]; simp
+
 /-- any two iteration orders of the same key set give the same sorted slice -/
 theorem sortKeys_perm (l₁ l₂ : List Acc) (h : l₁.Perm l₂) : sortKeys l₁ = sortKeys l₂ := by
-  sorry
+  refine strictSorted_ext (· < ·) natLt_asym _ _ (sortKeys_sorted l₁) (sortKeys_sorted l₂) (fun x => ?_)
+  rw [mem_sortKeys, mem_sortKeys]
+  exact h.mem_iff
 
 /-- the sorted slice is strictly increasing and has exactly the collected keys -/
 theorem sortKeys_spec (l : List Acc) :
-    (sortKeys l).Pairwise (· < ·) ∧ ∀ u, u ∈ sortKeys l ↔ u ∈ l := by
-  sorry
+    (sortKeys l).Pairwise (· < ·) ∧ ∀ u, u ∈ sortKeys l ↔ u ∈ l :=
+  ⟨sortKeys_sorted l, mem_sortKeys l⟩
 
 /-- `biddersOf` (the model's rendering of "keys of the allocation / refund map, sorted") is
     `sortKeys` of the bidders in ANY order -/
 theorem biddersOf_any_order (bids : List Bid) (l : List Acc) (h : l.Perm (bids.map (·.bidder))) :
     biddersOf bids = sortKeys l := by
-  sorry
+  have hs : (biddersOf bids).Pairwise (· < ·) := by
+    have := (biddersOf_foldl bids [] List.Pairwise.nil).2
+    unfold biddersOf; exact this
+  refine strictSorted_ext (· < ·) natLt_asym _ _ hs (sortKeys_sorted l) (fun x => ?_)
+  rw [mem_biddersOf, mem_sortKeys, h.mem_iff, List.mem_map]
 
 /-- the same for the price keys of `bidsByPrice`, sorted descending with a strict order -/
 def insertDesc (p : Dec) : List Dec → List Dec
@@ -32,23 +105,111 @@ def insertDesc (p : Dec) : List Dec → List Dec
 
 def sortPricesDesc (l : List Dec) : List Dec := l.foldl (fun acc p => insertDesc p acc) []
 
+theorem mem_insertDesc (p v : Dec) : ∀ (l : List Dec), v ∈ insertDesc p l ↔ v = p ∨ v ∈ l
+  | [] => by simp [insertDesc]
+  | y :: ys => by
+    unfold insertDesc
+    split
+    · simp
+    · split
+      · rename_i _ he; subst he; simp
+      · rw [List.mem_cons, mem_insertDesc p v ys, List.mem_cons]
+        constructor
+        · rintro (h | h | h) <;> simp [h]
+        · rintro (h | h | h) <;> simp [h]
+
+theorem insertDesc_sorted (p : Dec) : ∀ (l : List Dec), l.Pairwise (fun x y => y < x) →
+    (insertDesc p l).Pairwise (fun x y => y < x)
+  | [], _ => by simp [insertDesc]
+  | y :: ys, h => by
+    have h' := List.pairwise_cons.1 h
+    unfold insertDesc
+    split
+    · rename_i hlt
+      refine List.pairwise_cons.2 ⟨?_, h⟩
+      intro z hz
+      rcases List.mem_cons.1 hz with rfl | hz
+      · exact hlt
+      · exact Int.lt_trans (h'.1 z hz) hlt
+    · split
+      · exact h
+      · rename_i hnlt hne
+        refine List.pairwise_cons.2 ⟨?_, insertDesc_sorted p ys h'.2⟩
+        intro z hz
+        rcases (mem_insertDesc p z ys).1 hz with rfl | hz
+        · exact Int.lt_iff_le_and_ne.2 ⟨Int.not_lt.1 hnlt, hne⟩
+        · exact h'.1 z hz
+
+theorem sortPricesDesc_foldl (l : List Dec) : ∀ (acc : List Dec), acc.Pairwise (fun x y => y < x) →
+    (l.foldl (fun acc p => insertDesc p acc) acc).Pairwise (fun x y => y < x) ∧
+    ∀ v, v ∈ l.foldl (fun acc p => insertDesc p acc) acc ↔ v ∈ acc ∨ v ∈ l := by
+  induction l with
+  | nil => intro acc h; exact ⟨h, fun v => by simp⟩
+  | cons u us ih =>
+    intro acc h
+    simp only [List.foldl_cons]
+    have := ih (insertDesc u acc) (insertDesc_sorted u acc h)
+    refine ⟨this.1, fun v => ?_⟩
+    rw [this.2 v, mem_insertDesc, List.mem_cons]
+    constructor
+    · rintro ((h | h) | h)
+      · exact Or.inr (Or.inl h)
+      · exact Or.inl h
+      · exact Or.inr (Or.inr h)
+    · rintro (h | h | h)
+      · exact Or.inl (Or.inr h)
+      · exact Or.inl (Or.inl h)
+      · exact Or.inr h
+
+theorem sortPricesDesc_sorted (l : List Dec) : (sortPricesDesc l).Pairwise (fun x y => y < x) :=
+  (sortPricesDesc_foldl l [] List.Pairwise.nil).1
+
+theorem mem_sortPricesDesc (l : List Dec) (u : Dec) : u ∈ sortPricesDesc l ↔ u ∈ l := by
+  have := (sortPricesDesc_foldl l [] List.Pairwise.nil).2 u
+  unfold sortPricesDesc; rw [this]; simp
+
 theorem sortPricesDesc_perm (l₁ l₂ : List Dec) (h : l₁.Perm l₂) :
     sortPricesDesc l₁ = sortPricesDesc l₂ := by
-  sorry
+  refine strictSorted_ext (fun x y => y < x) intGt_asym _ _
+    (sortPricesDesc_sorted l₁) (sortPricesDesc_sorted l₂) (fun x => ?_)
+  rw [mem_sortPricesDesc, mem_sortPricesDesc]
+  exact h.mem_iff
 
 /-- the model's price list is what the code computes, for every iteration order of the map -/
 theorem distinctPrices_any_order (bids : List Bid) (l : List Dec)
     (h : l.Perm ((sortBids bids).map (·.price))) :
     distinctPrices (sortBids bids) = sortPricesDesc l := by
-  sorry
+  have hs : (sortBids bids).Pairwise (fun x y => y.price ≤ x.price) := by
+    have := (sortBids_foldl bids [] List.Pairwise.nil).2
+    unfold sortBids; exact this
+  refine strictSorted_ext (fun x y => y < x) intGt_asym _ _
+    (distinctPrices_desc _ hs) (sortPricesDesc_sorted l) (fun x => ?_)
+  rw [mem_distinctPrices, mem_sortPricesDesc, h.mem_iff, List.mem_map]
 
 /-- "for k, v := range m { other[k] = f k v }": pointwise writes indexed by the range key
     commute — any two iteration orders build the same map -/
 def writeAll {β : Type} (f : Acc → β) (m₀ : Acc → β) (l : List Acc) : Acc → β :=
   l.foldl (fun m k => fun x => if x = k then f k else m x) m₀
 
+theorem writeAll_apply {β : Type} (f : Acc → β) : ∀ (l : List Acc) (m₀ : Acc → β) (x : Acc),
+    writeAll f m₀ l x = if x ∈ l then f x else m₀ x
+  | [], m₀, x => by simp [writeAll]
+  | k :: l, m₀, x => by
+    have ih := writeAll_apply f l (fun x => if x = k then f k else m₀ x) x
+    unfold writeAll at ih ⊢
+    rw [List.foldl_cons, ih]
+    by_cases hl : x ∈ l
+    · simp [hl]
+    · by_cases hk : x = k
+      · subst hk; simp
+      · simp [hl, hk]
+
 theorem writeAll_perm {β : Type} (f : Acc → β) (m₀ : Acc → β) (l₁ l₂ : List Acc) (h : l₁.Perm l₂) :
     writeAll f m₀ l₁ = writeAll f m₀ l₂ := by
-  sorry
+  funext x
+  rw [writeAll_apply, writeAll_apply]
+  by_cases hx : x ∈ l₁
+  · rw [if_pos hx, if_pos (h.mem_iff.1 hx)]
+  · rw [if_neg hx, if_neg (fun h' => hx (h.mem_iff.2 h'))]
 
 end Fundraising
